@@ -205,8 +205,9 @@ def files_vs_stdout(argv, r, d):
     if len(lcode) != 1 or len(ldata) != 1:
         return "assemble created {}".format(r["created"])
     base = [a for a in argv if a not in ("--code", "--data")]
-    rc = run_real(base + ["--stdout", "--code"], d)
-    rd = run_real(base + ["--stdout", "--data"], d)
+    # (flags go in front: after `--` they would be taken as paths)
+    rc = run_real(["--stdout", "--code"] + base, d)
+    rd = run_real(["--stdout", "--data"] + base, d)
     if rc["code"] != 0 or rd["code"] != 0:
         return "assemble succeeds into files but fails with --stdout"
     if r["contents"][lcode[0]].rstrip("\n") != rc["out"].rstrip("\n"):
@@ -255,6 +256,7 @@ def check(seed, n):
             r = run_real(argv, d, stdin_text)
             seen.add(tuple(argv))
             case = {"argv": argv, "stdin": stdin_text}
+            proto.sample("cli", case)
             p = contract_problem(argv, r, d) or files_vs_stdout(argv, r, d)
             if isinstance(r["code"], int) and not r["exc"]:
                 dist["status{}".format(r["code"])] = dist.get("status{}".format(r["code"]), 0) + 1
